@@ -287,7 +287,7 @@ def run_paths(harness, solver, prefixes, opts, budget_paths, budget_s):
             out = harness.run_path(ctx)
             stats['completed'] += 1
             if out is not None:
-                if len(res['samples']) < max_samples:
+                if len(res['samples']) < max_samples and (max_samples <= 64 or (isinstance(out, dict) and out.get('scenario'))):
                     res['samples'].append(out)
                 if opts.get('collect_results'):
                     res['results'].append(out)
